@@ -21,8 +21,7 @@
 (*         implementation may follow either reading for each.              *)
 (*   m.kw  TRUE  = let / in are reserved words; FALSE = contextual         *)
 (*   m.ws  TRUE  = blanks allowed inside "[*]" and ".*"; FALSE = not       *)
-(*   m.len TRUE  = lenient literals (unpaired surrogate -> U+FFFD,         *)
-(*                 integers beyond 64 bits clamp)                          *)
+(*   m.len TRUE  = lenient literals (unpaired surrogate -> U+FFFD)         *)
 (***************************************************************************)
 EXTENDS Lexer, Literals
 
@@ -120,7 +119,9 @@ Expr(ts, i, rbp, m) ==
 \* [ok, idx (TRUE = index), n, sl, i]
 BracketSpec(ts, i, m) ==
   LET bad == [ok |-> FALSE, idx |-> FALSE, n |-> 0, sl |-> NoSlice, i |-> 0]
-      IntAt(j) == IF K(ts, j) = "int" /\ (m.len \/ ~IntTooBig(ts[j].cp)) THEN 1 ELSE 0
+      \* number = ["-"] 1*digit has no size bound: an index or slice part beyond 64 bits is in the
+      \* language (and lies beyond every length)
+      IntAt(j) == IF K(ts, j) = "int" THEN 1 ELSE 0
       iv(j) == IntTok(ts[j].cp).v
   IN
   IF K(ts, i) = "int" /\ K(ts, i + 1) = "rbracket"
@@ -334,7 +335,7 @@ HasWsComposite(ts) ==
 HasOpenLit(ts) ==
   \E i \in 1..Len(ts) :
      \/ ts[i].k \in {"qid", "json"} /\ HasOpenJStr(ts[i].cp, 2)
-     \/ ts[i].k = "int" /\ IntTooBig(ts[i].cp)
+
 Both(c) == IF c THEN BOOLEAN ELSE {TRUE}
 \* ds, ms, fl and sg are NOT open: property C01 pins "a projection's right-hand side extends over
 \* following selectors until a pipe, a lower-precedence operator or a closing bracket" and C10 pins
